@@ -5,7 +5,7 @@ cd /verif
 ids="$@"; [ -z "$ids" ] && ids=$(ls seeded)
 ok=0; miss=0
 for id in $ids; do
-  prop=$(python3 -c "import json;print(json.load(open('seeded/$id/meta.json'))['property'])")
+  prop=$(python3 -c "import json;m=json.load(open('seeded/$id/meta.json'));print(m.get('detected_by_property_check', m['property']))")
   out=$(tools/try_mutant.sh seeded/$id/patch.diff $prop 2>&1 | tail -1)
   if [ "$out" = "rc=1" ]; then ok=$((ok+1)); echo "DETECTED $id ($prop)"; else miss=$((miss+1)); echo "NOT-DETECTED $id ($prop) $out"; fi
 done
